@@ -246,8 +246,14 @@ func (t *Term) Abstract() string {
 type Builder struct {
 	U     Universe
 	Fresh bool
-	named map[string]*types.StructType
-	depth int
+	// Intern makes the builder hand out ONE Go object per type (the library's
+	// own singletons types.I8, types.Double, ... where they exist), as programs
+	// that build IR usually do; state that the library attaches to or keys by
+	// type objects is then shared between everything built from this builder.
+	Intern bool
+	named  map[string]*types.StructType
+	cache  map[string]types.Type
+	depth  int
 }
 
 // NewBuilder returns a builder over universe u.
@@ -307,8 +313,39 @@ func (b *Builder) namedType(nm string, allowFresh bool) *types.StructType {
 	return st
 }
 
+var singletons = map[string]types.Type{
+	"void": types.Void, "x86_mmx": types.MMX, "label": types.Label, "token": types.Token, "metadata": types.Metadata,
+	"i1": types.I1, "i8": types.I8, "i16": types.I16, "i32": types.I32, "i64": types.I64, "i128": types.I128,
+	"half": types.Half, "float": types.Float, "double": types.Double, "x86_fp80": types.X86_FP80, "fp128": types.FP128, "ppc_fp128": types.PPC_FP128,
+	"i1*": types.I1Ptr, "i8*": types.I8Ptr, "i16*": types.I16Ptr, "i32*": types.I32Ptr, "i64*": types.I64Ptr, "i128*": types.I128Ptr,
+}
+
+// NewInternBuilder returns a builder that interns types (see Builder.Intern).
+func NewInternBuilder(u Universe) *Builder {
+	b := NewBuilder(u, false)
+	b.Intern = true
+	b.cache = map[string]types.Type{}
+	return b
+}
+
 // Type builds the library type of the term.
 func (b *Builder) Type(t *Term) types.Type {
+	if !b.Intern {
+		return b.build(t)
+	}
+	k := t.Key()
+	if x, ok := b.cache[k]; ok {
+		return x
+	}
+	x, ok := singletons[k]
+	if !ok {
+		x = b.build(t)
+	}
+	b.cache[k] = x
+	return x
+}
+
+func (b *Builder) build(t *Term) types.Type {
 	switch t.K {
 	case "int":
 		return types.NewInt(uint64(t.W))
